@@ -3,6 +3,7 @@ package checks
 import (
 	"encoding/binary"
 	"encoding/json"
+	"flag"
 	"fmt"
 	"os"
 	"sort"
@@ -24,6 +25,73 @@ import (
 //	VERIF_TAG         suffix for replay file names
 //
 // plus rapid's own -rapid.checks / -rapid.seed flags.
+// revisitEvery: in a generated run, the cases kept from evaluations 1, 2, 4, 8, ... are checked again after every
+// revisitEvery evaluations. A case that passed and fails later shows that a result depends on the calls made in
+// between (a cache that goes stale after many different keys, an evicted slot that is still indexed, a counter that
+// wraps): "for every history".
+const revisitEvery = 2048
+
+func runRapid(t *testing.T, p *prop, s *stats, tag string, replayOf string) {
+	var kept [][]byte
+	var keptAt []int
+	n := 0
+	failed := false
+	rapid.Check(t, func(rt *rapid.T) {
+		c := p.gen(rt)
+		s.record(p, c)
+		if fails := runCheck(p, s, c); len(fails) > 0 {
+			failed = true
+			path := replayOf
+			if replayOf == "" {
+				path = writeReplay(p, s, c, fails, tag)
+			} else {
+				s.mu.Lock()
+				s.Violations = append(s.Violations, violation{Replay: replayOf, Fails: fails})
+				s.mu.Unlock()
+			}
+			rt.Fatalf("property %s violated (%s): %s [replay %s]", p.id, fails[0].Kind, fails[0].Msg, path)
+		}
+		if p.noRevisit || failed {
+			return
+		}
+		n++
+		if n&(n-1) == 0 && len(kept) < 28 {
+			if b, err := json.Marshal(c); err == nil {
+				kept = append(kept, b)
+				keptAt = append(keptAt, n)
+			}
+		}
+		if n%revisitEvery != 0 {
+			return
+		}
+		for i, b := range kept {
+			c2 := p.newCase()
+			if json.Unmarshal(b, c2) != nil {
+				continue
+			}
+			Count("revisited_cases", 1)
+			fails := runCheckOnce(p, s, c2)
+			if len(fails) == 0 {
+				continue
+			}
+			failed = true
+			for j := range fails {
+				fails[j].Msg = fmt.Sprintf("the case passed as evaluation %d of this run and fails when checked again after %d evaluations: %s", keptAt[i], n, fails[j].Msg)
+				fails[j].Kind = "revisit:" + fails[j].Kind
+			}
+			path := replayOf
+			if replayOf == "" {
+				path = writeReplayH(p, s, c2, fails, tag, &replayHistory{Seed: flag.Lookup("rapid.seed").Value.String(), Checks: n, First: keptAt[i]})
+			} else {
+				s.mu.Lock()
+				s.Violations = append(s.Violations, violation{Replay: replayOf, Fails: fails})
+				s.mu.Unlock()
+			}
+			rt.Fatalf("property %s violated (%s): %s [replay %s]", p.id, fails[0].Kind, fails[0].Msg, path)
+		}
+	})
+}
+
 func TestProp(t *testing.T) {
 	id := os.Getenv("VERIF_PROP")
 	mode := os.Getenv("VERIF_MODE")
@@ -71,14 +139,7 @@ func TestProp(t *testing.T) {
 
 	switch mode {
 	case "rapid":
-		rapid.Check(t, func(rt *rapid.T) {
-			c := p.gen(rt)
-			s.record(p, c)
-			if fails := runCheck(p, s, c); len(fails) > 0 {
-				path := writeReplay(p, s, c, fails, tag)
-				rt.Fatalf("property %s violated (%s): %s [replay %s]", id, fails[0].Kind, fails[0].Msg, path)
-			}
-		})
+		runRapid(t, p, s, tag, "")
 	case "sweep":
 		if p.sweep == nil {
 			return
@@ -110,6 +171,14 @@ func TestProp(t *testing.T) {
 		c := p.newCase()
 		if err := json.Unmarshal(rf.Case, c); err != nil {
 			t.Fatalf("HARNESS-ERROR %v", err)
+		}
+		if rf.History != nil {
+			// history-dependent failure: repeat the generated run (same seed, same number of evaluations)
+			_ = flag.Set("rapid.seed", rf.History.Seed)
+			_ = flag.Set("rapid.checks", strconv.Itoa(rf.History.Checks+1))
+			_ = flag.Set("rapid.nofailfile", "true")
+			runRapid(t, p, s, tag, os.Getenv("VERIF_REPLAY"))
+			return
 		}
 		for i := 0; i < p.replayRuns; i++ {
 			s.record(p, c)
